@@ -287,6 +287,34 @@ def dominating_conditions(body, bb):
     return out
 
 
+NEG_OP = {"Lt": "Ge", "Le": "Gt", "Gt": "Le", "Ge": "Lt", "Eq": "Ne", "Ne": "Eq"}
+_ORD_SETS = {("Greater",): "Gt", ("Less",): "Lt", ("Equal",): "Eq", ("Equal", "Greater"): "Ge", ("Equal", "Less"): "Le", ("Greater", "Less"): "Ne"}
+_CMP_CALLS = {"std::cmp::PartialOrd::lt": "Lt", "std::cmp::PartialOrd::le": "Le", "std::cmp::PartialOrd::gt": "Gt", "std::cmp::PartialOrd::ge": "Ge",
+              "std::cmp::PartialEq::eq": "Eq", "std::cmp::PartialEq::ne": "Ne"}
+
+
+def order_facts(body, X, bb):
+    """[(expr a, op, expr b, cond block)]: comparisons `a op b` that hold on every path entry->bb, whatever the surface
+    form: `a > b`, `a.gt(&b)`, `match a.cmp(&b) { Greater => .. }` (or the negation / complement arms of those)"""
+    from mir import strip
+    out = []
+    for cnd, truth in dominating_conditions(body, bb):
+        if cnd.kind == "cmp":
+            op = cnd.op if truth else NEG_OP[cnd.op]
+            out.append((strip(X.operand(body, cnd.a)), op, strip(X.operand(body, cnd.b)), cnd.bb))
+        elif cnd.kind == "call" and cnd.call.name in _CMP_CALLS and len(cnd.call.args) == 2:
+            op = _CMP_CALLS[cnd.call.name]
+            op = op if truth else NEG_OP[op]
+            out.append((strip(X.operand(body, cnd.call.args[0])), op, strip(X.operand(body, cnd.call.args[1])), cnd.bb))
+        elif cnd.kind == "enum" and isinstance(truth, tuple) and truth in _ORD_SETS and cnd.place is not None:
+            e = strip(X.place(body, cnd.place))
+            if e[0] == "call" and e[1] in ("std::cmp::Ord::cmp",) and len(e[2]) == 2:
+                out.append((e[2][0], _ORD_SETS[truth], e[2][1], cnd.bb))
+            elif e[0] == "field" and e[1] == "0" and e[3] == "Some" and e[4][0] == "call" and e[4][1] == "std::cmp::PartialOrd::partial_cmp":
+                out.append((e[4][2][0], _ORD_SETS[truth], e[4][2][1], cnd.bb))
+    return out
+
+
 # ---------------------------------------------------------------------------- intervals
 def int_ty(ty):
     return ty if ty in INT_RANGES else None
